@@ -40,8 +40,9 @@ def run(ctx, rep):
         want = 'Keccak256' if extract.CONFIGS[cname]['hash'].startswith('keccak') else 'Blake2s256'
         fn = db.fn(VERIFY_POW, 'C03.hash')
         hs, _ = hashsites.describe(db, fn)
-        rep.ob('C03.hash', f"pow/{extract.CONFIGS[cname]['hash']}", len(hs) == 2 and all(h == want for h in hs),
-               f'proof-of-work hashers {hs} (expected {want} twice)', fn.loc(), cname)
+        apps = hashsites.applications(db, fn)
+        rep.ob('C03.hash', f"pow/{extract.CONFIGS[cname]['hash']}", bool(hs) and all(h == want for h in hs) and len(apps) == 2,
+               f'proof-of-work hashers {hs}, applied {len(apps)} time(s) (expected {want}, applied twice)', fn.loc(), cname)
     manifests(rep)
     db = ctx.main
     cfg = db.config
